@@ -443,3 +443,49 @@ pub fn gen_workload(seed: u64, cfg: GenCfg) -> Workload {
     }
     Workload { shared, threads, faults }
 }
+
+// ---------------------------------------------------------------------------------------------
+// first-use workloads (run as the first simulated run of a fresh process)
+// ---------------------------------------------------------------------------------------------
+
+const FIRST_TEXTS: [(Kind, &[&str]); 8] = [
+    (Kind::F64, &["sin(x)+{y z}*2-cosy", "1+2*3", "PI*x^2"]),
+    (Kind::F64b, &["dbl(x)<=2**3*pad05(y)", "x**2<y"]),
+    (Kind::F32, &["cos(y)-3/z", "sqrt(2)*x"]),
+    (Kind::Val, &["1 if x>0 else [1,2]", "to_float(k)+2.5", "x<=y&&true"]),
+    (Kind::Bool, &["!p&&true||q", "p==q"]),
+    (Kind::Sim, &["sq(x)**2<=3*TEN-incy", "x*y**2<=7"]),
+    (Kind::Sim2, &["sq(x)**2<=3*TEN-incy", "x*y**2<=7"]),
+    (Kind::Sim3, &["tw(x)&&1<<2|negy", "x<<2<y&&ONE"]),
+];
+
+/// No shared expressions: 2-4 threads whose first operations parse the same small texts, one per
+/// operator table, in the same order (sometimes rotated per thread), so that the first use of
+/// anything that exists once per process or once per operator table is contended.
+pub fn gen_firstuse_workload(seed: u64) -> Workload {
+    let mut r = Rng::new(seed);
+    let n_threads = r.range(2, 4);
+    let rot = r.below(8);
+    let per_thread_rot = r.chance(3, 10);
+    let n_kinds = r.range(3, 8);
+    let variant = r.below(3);
+    let mut threads = Vec::new();
+    for t in 0..n_threads {
+        let mut ops = Vec::new();
+        for i in 0..n_kinds {
+            let idx = (rot + i + if per_thread_rot { t * 3 } else { 0 }) % 8;
+            let (kind, texts) = FIRST_TEXTS[idx];
+            let text = texts[variant % texts.len()].to_string();
+            let form = if (i + rot) % 3 == 0 { Form::Deep } else { Form::Flat };
+            ops.push(Op::Parse { kind, form, text, compile: true, damaged: false });
+        }
+        for _ in 0..r.below(3) {
+            let kind = pick_kind(&mut r);
+            let n = r.range(1, 12);
+            let text = gen_text(&mut r, kind, n);
+            ops.push(Op::Parse { kind, form: Form::Flat, text, compile: true, damaged: false });
+        }
+        threads.push(ops);
+    }
+    Workload { shared: Vec::new(), threads, faults: Vec::new() }
+}
